@@ -15,6 +15,13 @@ Definition resets (o : wmode) : Prop := match o with Identity | Unhandled => Fal
 
 Lemma new_weights_resets o d w w' : resets o -> new_weights o d w = new_weights o d w'.
 Proof. destruct o; cbn; intros H; try reflexivity; contradiction. Qed.
+Lemma new_weights_spec o d w : resets o -> new_weights o d w = spec_weights o d.
+Proof. destruct o; cbn; intros H; try reflexivity; contradiction. Qed.
+(* the parametrised step: without repairs it is the code as it was, with all of them the weights are the option's *)
+Lemma new_weights_p_as_coded o d w : new_weights_p invw as_coded o d w = new_weights o d w.
+Proof. now destruct o. Qed.
+Lemma new_weights_p_repaired o d w : new_weights_p invw repaired o d w = spec_weights o d.
+Proof. now destruct o. Qed.
 
 (* ---------- generic loss ---------- *)
 Lemma g_run_app a b s : g_run (a ++ b) s = g_run b (g_run a s).
@@ -32,8 +39,8 @@ Proof. rewrite g_run_app. cbn. unfold C13_Loss.g_value. cbn. now rewrite g_run_w
 (* positive: custom and inverse-covariance modes are history independent *)
 Theorem g_configure_history_independent ops w0 d o :
   resets o -> g_value (g_run (ops ++ [Configure d o]) (g_init w0)) = Some (spec d o).
-Proof. intros H. rewrite g_value_after_configure. unfold C13_Loss.spec, C13_Loss.spec_weights.
-  now rewrite (new_weights_resets o d _ None H). Qed.
+Proof. intros H. rewrite g_value_after_configure. unfold C13_Loss.spec.
+  now rewrite (new_weights_spec o d _ H). Qed.
 
 (* positive: identity is right as long as nothing ever set weights *)
 Lemma last_weights_all_identity ops : all_identity ops -> forall w, last_weights ops w = w.
@@ -54,6 +61,19 @@ Proof. intros Hne. exists [Configure d1 InvSample]. cbn. unfold C13_Loss.g_value
 (* after the fix (identity resets the weights) every configuration is history independent *)
 Theorem g_fixed_history_independent ops s d o :
   g_value (g_step_fixed invw (fold_left (g_step_fixed invw) ops s) (Configure d o)) = Some (spec d o).
+Proof. reflexivity. Qed.
+Lemma g_step_p_as_coded s op : g_step_p invw as_coded s op = g_step s op.
+Proof. destruct op as [d o|w]; [|reflexivity]. cbn. now rewrite new_weights_p_as_coded. Qed.
+Lemma g_step_p_repaired s op : g_step_p invw repaired s op = g_step_fixed invw s op.
+Proof. destruct op as [d o|w]; [|reflexivity]. cbn. now rewrite new_weights_p_repaired. Qed.
+(* REPAIRED generic loss (the machine compared with the code): every configuration, after any history from any
+   state, evaluates the dataset of the call with the weights the option of the call names *)
+Theorem g_repaired_history_independent ops s d o :
+  g_value (g_step_p invw repaired (g_run_p invw repaired ops s) (Configure d o)) = Some (spec d o).
+Proof. unfold C13_Loss.g_value, C13_Loss.spec. cbn. now rewrite new_weights_p_repaired. Qed.
+(* ... and the setter decides the weights from then on *)
+Theorem g_repaired_setter ops s d o w :
+  g_value (g_step_p invw repaired (g_step_p invw repaired (g_run_p invw repaired ops s) (Configure d o)) (SetW w)) = Some (val d w).
 Proof. reflexivity. Qed.
 
 (* ---------- fast loss ---------- *)
@@ -128,6 +148,23 @@ Proof. intros Hne. cbn. split; [reflexivity|]. unfold C13_Loss.f_value. cbn. int
 Theorem f_fixed_history_independent ops s d o :
   f_value (f_step_fixed invw (fold_left (f_step_fixed invw) ops s) (Configure d o)) = Some (spec d o).
 Proof. reflexivity. Qed.
+Lemma f_step_p_as_coded s op : f_step_p invw as_coded s op = f_step s op.
+Proof. destruct op as [d o|w]; [|reflexivity]. cbn. now rewrite new_weights_p_as_coded. Qed.
+Lemma f_step_p_repaired s op : f_step_p invw repaired s op = f_step_fixed invw s op.
+Proof. destruct op as [d o|w]; [|reflexivity]. cbn. now rewrite new_weights_p_repaired. Qed.
+(* REPAIRED fast loss (the machine compared with the code) *)
+Theorem f_repaired_history_independent ops s d o :
+  f_value (f_step_p invw repaired (f_run_p invw repaired ops s) (Configure d o)) = Some (spec d o).
+Proof. unfold C13_Loss.f_value, C13_Loss.spec. cbn. now rewrite new_weights_p_repaired. Qed.
+(* the cached extension mirrors the observable weights after every operation, so value()/gradient() are
+   functions of the observable fields (dataset, weight_matrices) *)
+Theorem f_repaired_ext_mirrors ops op s :
+  let s' := f_run_p invw repaired (ops ++ [op]) s in f_ext s' = f_w s'.
+Proof. cbv zeta. unfold C13_Loss.f_run_p. rewrite fold_left_app. cbn. now destruct op. Qed.
+Corollary f_repaired_value_observable ops op s :
+  let s' := f_run_p invw repaired (ops ++ [op]) s in
+  f_value s' = option_map (fun d => val d (f_w s')) (f_data s').
+Proof. cbv zeta. unfold C13_Loss.f_value. now rewrite (f_repaired_ext_mirrors ops op s). Qed.
 
 (* ---------- relative entropy: configuring never touches the weights; the extension is rebuilt from the
    object's own weights on every configuration, so the result depends on (d, own weights) only ---------- *)
@@ -142,6 +179,47 @@ Theorem r_value_after_configure (ops : list lop) w0 d o :
   r_value val (r_run (ops ++ [Configure d o]) (r_init w0)) = Some (val d w0).
 Proof. intros H. unfold C13_Loss.r_run. rewrite fold_left_app. cbn. unfold C13_Loss.r_value. cbn.
   fold (r_run ops (r_init w0)). rewrite (r_run_weights ops H). cbn. now destruct w0. Qed.
+(* one history on both machines (instantiated numerically in Props/C13.v) *)
+Lemma repaired_vs_coded_example d d1 :
+  f_value (f_run_p invw repaired [Configure d1 InvSample; Configure d Identity] (f_init None)) = Some (val d None) /\
+  f_value (f_run_p invw repaired [Configure d Identity] (f_init None)) = Some (val d None) /\
+  (val d (Some (invw false d1)) <> val d None ->
+   f_value (f_run [Configure d1 InvSample; Configure d Identity] (f_init None)) <> Some (val d None)).
+Proof. split; [reflexivity|split; [reflexivity|]]. intros Hne H. unfold C13_Loss.f_value in H. cbn in H.
+  inversion H. contradiction. Qed.
+
+(* ---------- relative entropy, REPAIRED (the machine compared with the code) ---------- *)
+Definition r_ok (s : @rstate D W) : Prop := forall x, r_w s = Some x -> r_data s <> None -> r_ext s = Some x.
+Lemma r_init_ok w0 : r_ok (r_init w0).
+Proof. intros x _ H. now contradiction H. Qed.
+Lemma r_step_fixed_ok s op : r_ok s -> r_ok (r_step_fixed s op).
+Proof.
+  intros H. destruct op as [d o|w]; intros x Hw Hd; cbn in *.
+  - now rewrite Hw.
+  - subst w. destruct (r_data s); [reflexivity|now contradiction Hd].
+Qed.
+Lemma r_run_fixed_ok (ops : list lop) : forall s, r_ok s -> r_ok (r_run_fixed ops s).
+Proof. induction ops as [|op ops IH]; intros s H; [exact H|]. cbn. apply IH. now apply r_step_fixed_ok. Qed.
+(* the value is a function of the observable fields (dataset, weights) *)
+Lemma r_value_ok s : r_ok s -> r_value val s = option_map (fun d => val d (r_w s)) (r_data s).
+Proof.
+  intros H. unfold C13_Loss.r_value. destruct (r_data s) as [d|] eqn:Ed; [|reflexivity]. cbn.
+  destruct (r_w s) as [x|] eqn:Ew; [|reflexivity]. rewrite (H x Ew); [reflexivity|]. rewrite Ed. discriminate.
+Qed.
+Definition r_mode (o : wmode) : Prop := match o with Identity | Custom _ => True | _ => False end.
+Theorem r_repaired_history_independent (ops : list lop) w0 d o :
+  r_mode o -> r_value val (r_run_fixed (ops ++ [Configure d o]) (r_init w0)) = Some (spec d o).
+Proof.
+  intros Hm. rewrite r_value_ok by (apply r_run_fixed_ok, r_init_ok).
+  unfold C13_Loss.r_run_fixed. rewrite fold_left_app. cbn. unfold C13_Loss.spec.
+  destruct o; try contradiction; reflexivity.
+Qed.
+Theorem r_repaired_setter (ops : list lop) w0 d o w :
+  r_value val (r_run_fixed (ops ++ [Configure d o; SetW w]) (r_init w0)) = Some (val d w).
+Proof.
+  rewrite r_value_ok by (apply r_run_fixed_ok, r_init_ok).
+  unfold C13_Loss.r_run_fixed. rewrite fold_left_app. reflexivity.
+Qed.
 End Loss.
 
 (* ---------- algorithm object ---------- *)
@@ -211,11 +289,20 @@ Proof.
   { unfold st. cbn [C13_Loss.est_run_g]. apply est_run_g_proj. reflexivity. }
   clearbody st. f_equal.
   - unfold C13_Loss.g_value. cbn. unfold C13_Loss.spec, C13_Loss.spec_weights.
-    now rewrite (new_weights_resets invw (j_mode j) (j_data j) _ None Hr).
+    now rewrite (new_weights_spec invw (j_mode j) (j_data j) _ Hr).
   - cbn. rewrite Hproj. now rewrite Hp.
 Qed.
-(* the first job of fresh objects *)
-Theorem est_generic_first_job j :
-  snd (est_step_g (g_init None, a_init None) j) = est_spec j.
+(* REPAIRED loss and algorithm objects (the machines compared with the code), re-used over arbitrary earlier
+   jobs from any state: every job returns what fresh objects return *)
+Theorem est_repaired_history_independent st js j :
+  snd (est_step_gp invw val mkproj qt_of solve repaired (est_run_gp invw val mkproj qt_of solve repaired st js) j) = est_spec j.
 Proof. reflexivity. Qed.
+Theorem est_repaired_fast_history_independent st js j :
+  snd (est_step_fp invw val mkproj qt_of solve repaired (est_run_fp invw val mkproj qt_of solve repaired st js) j) = est_spec j.
+Proof. reflexivity. Qed.
+(* the first job of fresh objects (code before the fixes; the alias spelling was ignored then) *)
+Theorem est_generic_first_job j :
+  j_mode j <> Unhandled -> snd (est_step_g (g_init None, a_init None) j) = est_spec j.
+Proof. intros H. unfold C13_Loss.est_step_g, C13_Loss.est_spec, C13_Loss.g_value, C13_Loss.spec. cbn.
+  destruct (j_mode j); try reflexivity. now contradiction H. Qed.
 End Estimate.
